@@ -628,10 +628,14 @@ class Gen:
         used = set()
         for _ in range(r.randint(1, 2)):
             p2 = [g for g in pool if g not in used]
+            if not p2:
+                break
             s = self.gset(p2, 1, 3)
+            if not s["g"]:
+                break
             used.update(s["g"])
             L["rules"].append(dict(s=s, marks=self._markparts()))
-        return True
+        return bool(L["rules"])
 
     def g_markmark(self, L, nested):
         r = self.r
@@ -652,7 +656,11 @@ class Gen:
         used = set()
         for _ in range(r.randint(1, 2)):
             p2 = [g for g in pool if g not in used]
+            if not p2:
+                break
             s = self.gset(p2, 1, 2, named=False)
+            if not s["g"]:
+                break
             used.update(s["g"])
             comps = []
             for _c in range(r.randint(1, 3)):
